@@ -117,7 +117,7 @@ theorem ctxSwitch_ref {E : Env} {st : St} {lp : Loop} {c : UInt8} (hI : LoopInv 
   · rename_i hh
     isplit
     · exact caseLT_ref hI hlt hh
-    · exact ⟨_, rfl, rfl, id⟩
+    · exact ⟨_, rfl, rfl, id, rfl⟩
   · isplit
     · exact caseTag_ref hI hlt hc
     · isplit
@@ -132,13 +132,14 @@ theorem ctxSwitch_ref {E : Env} {st : St} {lp : Loop} {c : UInt8} (hI : LoopInv 
               · exact caseJSON_ref hlt
               · isplit
                 · exact caseJSString_ref _ _ hlt
-                · exact ⟨_, rfl, rfl, id⟩
+                · exact ⟨_, rfl, rfl, id, rfl⟩
 
 /-! ## the tail of an iteration -/
 
 theorem tail_ref {E : Env} (st : St) (lp : Loop) (c : UInt8) (hf : htmlFamily st.ctx) :
     proj (tail E st lp c).1 (tail E st lp c).2 = tailP E.text (proj st lp) c ∧
-    (tail E st lp c).1.toks = st.toks ∧ (tail E st lp c).2.emittedURL = lp.emittedURL := by
+    (tail E st lp c).1.toks = st.toks ∧ (tail E st lp c).2.emittedURL = lp.emittedURL ∧
+    (tail E st lp c).1.lbase = st.lbase := by
   unfold tail tailP
   have hpk : E.text[(proj st lp).pos + 1]? = peek E (newline st) (lp.p + 1) := peek_abs1 E st lp
   have h1 : ¬ ((newline st).ctx = ContextTabCodeBlock ∨ (newline st).ctx = ContextSpacesCodeBlock) := by
@@ -150,16 +151,17 @@ theorem tail_ref {E : Env} (st : St) (lp : Loop) (c : UInt8) (hf : htmlFamily st
   simp only [hpk, peekIs, beq_iff_eq]
   split
   · dsimp only
-    refine ⟨?_, ?_, ?_⟩
+    refine ⟨?_, ?_, ?_, ?_⟩
     rotate_left
+    · first | rfl | trivial
     · first | rfl | trivial
     · first | rfl | trivial
     split
     · proj_eq
     · proj_eq
   · split
-    · exact ⟨by proj_eq, rfl, rfl⟩
-    · exact ⟨by proj_eq, rfl, rfl⟩
+    · exact ⟨by proj_eq, rfl, rfl, rfl⟩
+    · exact ⟨by proj_eq, rfl, rfl, rfl⟩
 
 /-! ## no delimiter at the current position -/
 
@@ -175,13 +177,16 @@ theorem delimAt_false {text : Bytes} {i : Nat} {c : UInt8} (h : delimAt text i =
 /-- One iteration of the main loop of the full model, at a position where no delimiter starts and
 in a context of the HTML family, is `cstep` on the projection. -/
 theorem step_refines {E : Env} {st : St} {lp : Loop} (hI : LoopInv E st lp) (hlt : lp.p < srcLen E st)
-    (hf : htmlFamily st.ctx) (hft : htmlFamily st.tagCtx) (hd : delimAt E.text (st.base + lp.p) = false) :
-    ∃ st' lp', step E FHtml st lp = .ok (.cont st' lp') ∧ proj st' lp' = cstep E.U E.text (proj st lp) ∧
+    (hf : htmlFamily st.ctx) (hft : htmlFamily st.tagCtx) (hd : delimAt E.text (st.base + lp.p) = false)
+    (hlb : st.lbase = ContextHTML) (hB : Bal st) :
+    ∃ st' lp', step E st lp = .ok (.cont st' lp') ∧ proj st' lp' = cstep E.U E.text (proj st lp) ∧
       LoopInv E st' lp' ∧ Ext E st st' ∧ mu E st' lp' < mu E st lp ∧ htmlFamily st'.ctx ∧ htmlFamily st'.tagCtx ∧
-      (TokInv st.toks lp.emittedURL → TokInv st'.toks lp'.emittedURL) := by
+      (TokInv st.toks lp.emittedURL → TokInv st'.toks lp'.emittedURL) ∧ st'.lbase = ContextHTML ∧ Bal st' := by
+  -- `l.base` is the file's context: the locals of the iteration are those of an HTML file
+  have hF : fixedOf st = FHtml := by simp [fixedOf, FHtml, hlb]
   -- the value
-  have hval : ∃ st' lp', step E FHtml st lp = .ok (.cont st' lp') ∧ proj st' lp' = cstep E.U E.text (proj st lp) ∧
-      (TokInv st.toks lp.emittedURL → TokInv st'.toks lp'.emittedURL) := by
+  have hval : ∃ st' lp', step E st lp = .ok (.cont st' lp') ∧ proj st' lp' = cstep E.U E.text (proj st lp) ∧
+      (TokInv st.toks lp.emittedURL → TokInv st'.toks lp'.emittedURL) ∧ st'.lbase = st.lbase := by
     obtain ⟨c, hc, hpk⟩ := srcAt_ok_of_lt hlt
     have hcabs : E.text[(proj st lp).pos]? = some c := hpk
     have hm := hf.not_md
@@ -200,27 +205,27 @@ theorem step_refines {E : Env} {st : St} {lp : Loop} (hI : LoopInv E st lp) (hlt
     rw [hdd]
     have n1 : ¬ (c = 0x7b ∧ E.text[st.base + lp.p + 1]? = some 0x7b ∧ (!E.noParseShow) = true) :=
       fun h => hdel.1 ⟨h.1, h.2.1⟩
-    simp only [if_neg n1, if_neg hdel.2.1, if_neg hdel.2.2.1, if_neg hdel.2.2.2]
+    simp only [if_neg n1, if_neg hdel.2.1, if_neg hdel.2.2.1, if_neg hdel.2.2.2, hF]
     obtain ⟨o, ho, href⟩ := ctxSwitch_ref hI hlt hpk hf
     simp only [ho, bind_ok]
     cases o with
     | next st' lp' =>
-      obtain ⟨hr, htok⟩ := href
+      obtain ⟨hr, htok, hlb'⟩ := href
       simp only [pure_eq_ok]
-      refine ⟨st', lp', rfl, ?_, htok⟩
+      refine ⟨st', lp', rfl, ?_, htok, hlb'⟩
       rw [hr]
     | fall st' lp' =>
-      obtain ⟨hr, htok⟩ := href
+      obtain ⟨hr, htok, hlb'⟩ := href
       have hfam : Fam (proj st' lp') := by
         have := ctxSwitchP_fam E.U E.text (proj st lp) c ⟨hf, hft⟩
         rw [hr] at this; exact this
-      obtain ⟨t1, t2, t3⟩ := tail_ref (E := E) st' lp' c hfam.1
+      obtain ⟨t1, t2, t3, t4⟩ := tail_ref (E := E) st' lp' c hfam.1
       simp only [pure_eq_ok]
-      refine ⟨_, _, rfl, ?_, ?_⟩
+      refine ⟨_, _, rfl, ?_, ?_, t4.trans hlb'⟩
       · rw [hr]; exact t1
       · rw [t2, t3]; exact htok
-  obtain ⟨st', lp', hs, hp, htok⟩ := hval
-  obtain ⟨o, ho, hg⟩ := step_ok (codeSpec E) (F := FHtml) hI hlt
+  obtain ⟨st', lp', hs, hp, htok, hlb'⟩ := hval
+  obtain ⟨o, ho, hg⟩ := step_ok (codeSpec E) hI hB hlt
   rw [hs] at ho
   cases ho
   obtain ⟨hI', hext, hmu⟩ := hg
@@ -241,6 +246,6 @@ theorem step_refines {E : Env} {st : St} {lp : Loop} (hI : LoopInv E st lp) (hlt
       · rename_i s' h2; rw [h2] at this
         unfold tailP
         split <;> exact this
-  exact ⟨st', lp', hs, hp, hI', hext, hmu, hfam.1, hfam.2, htok⟩
+  exact ⟨st', lp', hs, hp, hI', hext, hmu, hfam.1, hfam.2, htok, hlb'.trans hlb, hext.bal hB⟩
 
 end ScriggoV.LexCtx
